@@ -41,6 +41,12 @@ func genDup(t *rapid.T) DupCase {
 	cfg := tv.Cfg{MaxDepth: rapid.IntRange(1, 5).Draw(t, "maxdepth"), Embedding: true, Raw: true, Fallbacks: true, Tags: true, BigStructs: true,
 		MapKeys:   []string{"string", "string", "int", "int8", "uint", "float64", "float32", "int64"},
 		TopStruct: rapid.IntRange(0, 4).Draw(t, "topstruct") != 0, MaxFields: 4}
+	if rapid.IntRange(0, 2).Draw(t, "mapcentric") == 0 {
+		// map-centric shapes: numeric and string keyed maps at the top and below
+		cfg.TopStruct = false
+		cfg.Containers = []string{"map", "map", "map", "struct", "slice", "ptr", "any"}
+		cfg.MapKeys = []string{"float64", "float32", "int", "string", "uint8", "float64"}
+	}
 	c := DupCase{Desc: tv.GenDesc(t, cfg)}
 	stripUnmodelled(c.Desc)
 	c.Base = tv.GenJSON(t, c.Desc, tv.JSONCfg{Nulls: true, Extra: true, PresentPc: 80})
